@@ -165,3 +165,17 @@ def replay(prop, r):
         return info
     except native.NativeError as e:
         return {"reproduced": False, "why": "native runner failed: %s" % e}
+
+
+def linecol(text, exp):
+    """C05 oracle on a concrete input: reported line/column = those of the insertion offset"""
+    import sys, os
+    sys.path.insert(0, os.path.join(os.path.dirname(os.path.abspath(__file__)), "..", "smt"))
+    import validate
+    macros = exp.get("macros")
+    if not isinstance(macros, (list, tuple)):
+        return []
+    res = runner().find(text, structured=bool(exp.get("structured")), macros=[tuple(m) for m in macros])
+    if "entries" not in res:
+        return []
+    return validate.linecol_mismatches(text, res["entries"])
